@@ -98,11 +98,17 @@ def cases(draw):
     # rules on extra target species
     nrules = draw(st.integers(0, 3))
     for i in range(nrules):
-        tgt = f"Tg{i}"
-        sp["species"].append(tgt)
-        sp["x0"][tgt] = float(draw(st.integers(0, 5)))
         freq = draw(st.sampled_from(["repeated", "repeated", "start", "dt", "2.5", "0.75"]))
-        if draw(st.booleans()):
+        on_parameter = draw(st.integers(0, 3)) == 0
+        if on_parameter:
+            # the rule assigns a parameter; its declared value is what the model holds until the rule first fires
+            tgt = f"Pr{i}"
+            sp["params"][tgt] = draw(st.sampled_from([0.5, 2.0, 7.25, 0.0]))
+        else:
+            tgt = f"Tg{i}"
+            sp["species"].append(tgt)
+            sp["x0"][tgt] = float(draw(st.integers(0, 5)))
+        if draw(st.booleans()) and not on_parameter:
             srcs = draw(st.lists(st.sampled_from(species), min_size=1, max_size=3))
             tree = ["add"] + [gen.sym(s) for s in srcs] if len(srcs) > 1 else gen.sym(srcs[0])
             sp["rules"].append({"type": "additive", "eq": f"{tgt} = " + " + ".join(srcs), "freq": freq, "tree": tree, "dest": tgt})
